@@ -190,6 +190,18 @@ ModState(s) == <<s.ent.po, s.ent.rq, s.ent.aq, s.ent.wl, s.ent.locked, s.ent.spe
 WronglySigned(ev) == ev.a = "DeliverTx" /\ ~SigsOk(TxOf(ev))
 UnsignedChangesNothing(s, t, ev) == WronglySigned(ev) => ModState(s) = ModState(t)
 C13Step(s, t, ev) == UnsignedChangesNothing(s, t, ev)
+\* the party a message names is not the party the operation belongs to in state s (messages reached through wrappers included)
+NotEntitled(s, m) ==
+  CASE m.t \in {"Decide", "Whitelist"} -> ~IsSigner(s, m.signer)
+    [] m.t \in {"WRec", "WBuy"} -> ChExists(s, "wrk", m.id) /\ ChOf(s, "wrk", m.id).owner # m.owner
+    [] m.t \in {"BRec", "BBuy"} -> ChExists(s, "bcn", m.id) /\ ChOf(s, "bcn", m.id).owner # m.owner
+    [] m.t \in {"STopUp", "SRate", "SCancel", "SClaim"} -> ~HasStream(s, m.receiver, m.sender)
+    [] m.t = "UpdParams" -> m.authority # "gov"
+    [] OTHER -> FALSE
+\* within one transaction earlier messages may create the entitlement (register then record): only single-message
+\* transactions and wrappers of one message are judged here; the refinement check covers the rest
+SoleMsg(ev) == IF Len(Flatten(ev.msgs)) = 1 THEN Flatten(ev.msgs) ELSE <<>>
+UnentitledAccepted(s, ev, ok) == ev.a = "DeliverTx" /\ ok /\ SoleMsg(ev) # <<>> /\ NotEntitled(s, SoleMsg(ev)[1])
 
 ------------------------------------------------------------------------------
 (* C14 *)
